@@ -92,10 +92,23 @@ def r15a(ctx, rep, cr):
         return
     variants = [v['n'] for v in enum['variants']]
     tabs = {}
+    # the table functions, wherever they live: one per parser today, or one shared table in a module of its own
+    tfs = {n: f for n, f in cr.fns.items() if re.search(r'::infix_binding_power$', n) and '{closure' not in n}
     for mod in ('expr', 'parser'):
-        f = rep.require_fn('R15a', cr, NP + mod + '::infix_binding_power')
+        f = tfs.get(NP + mod + '::infix_binding_power')
         if f is not None:
             tabs[mod] = _bp_table(f, enum)
+    # a parser without a table of its own must use some other module's (one shared table)
+    for mod in ('expr', 'parser'):
+        if mod in tabs:
+            continue
+        for tn, tf in sorted(tfs.items()):
+            if any(n.startswith(NP + mod + '::') and A.calls_to(g, tn) for n, g in cr.fns.items()):
+                tabs[mod] = _bp_table(tf, enum)
+                break
+    for mod in ('expr', 'parser'):
+        if mod not in tabs:
+            rep.violation('R15a', 'anchor-missing', NP + mod + '::infix_binding_power', '-', 'anchor-missing: no infix binding-power table is used by the %s parser' % mod)
     if len(tabs) == 2:
         if tabs['expr'] == tabs['parser'] and set(tabs['expr']) == set(variants):
             rep.holds('R15a', NP + 'expr::infix_binding_power', 'tables identical and total', '%d operators' % len(variants))
@@ -137,8 +150,10 @@ def r15a(ctx, rep, cr):
                 rep.holds('R15a', fn, 'levels (%s)' % docname, '%d levels, strictly ordered' % len(levels))
     # prefix power
     maxr = max([r for t in tabs.values() for (_, r) in t.values()] or [0])
-    pf = rep.require_fn('R15a', cr, NP + 'expr::prefix_binding_power')
+    pf = cr.fns.get(NP + 'expr::prefix_binding_power') or next((f for n, f in cr.fns.items() if n.endswith('::prefix_binding_power')), None)
     pvals = []
+    if pf is not None:
+        rep.analysed(pf)
     if pf is not None:
         for b in pf.bbs:
             for st in b['s']:
@@ -147,16 +162,21 @@ def r15a(ctx, rep, cr):
                     if v is not None:
                         pvals.append(('expr', v))
     # parser.rs uses a const PREFIX_BP passed to parse_expr_bp from parse_prefix_expr
-    pp = cr.fns.get(NP + 'parser::Parser::parse_prefix_expr')
-    if pp is not None:
-        for c in A.calls_to(pp, NP + 'parser::Parser::parse_expr_bp'):
-            a = c.args[1]
-            if a[0] == 'k':
+    for where, pname, rec in (('parser', NP + 'parser::Parser::parse_prefix_expr', NP + 'parser::Parser::parse_expr_bp'),
+                              ('expr', NP + 'expr::ExprParser::parse_prefix', ('re', r'ExprParser::parse_(expr_)?bp$'))):
+        pp = cr.fns.get(pname)
+        if pp is None or (where == 'expr' and any(w == 'expr' for w, _ in pvals)):
+            continue
+        for c in A.calls_to(pp, rec):
+            a = c.args[1] if len(c.args) > 1 else None
+            if a is not None and a[0] == 'k':
                 v = A._const_val(a[1])
                 if v is None and 'PREFIX_BP' in a[1]:
-                    v = _const_item(os.path.join(facts.REPO, 'neumann_parser/src/parser.rs'), 'PREFIX_BP')
-                if v is not None:
-                    pvals.append(('parser', v))
+                    for fn_ in sorted(os.listdir(os.path.join(facts.REPO, 'neumann_parser/src'))):
+                        if fn_.endswith('.rs') and v is None:
+                            v = _const_item(os.path.join(facts.REPO, 'neumann_parser/src', fn_), 'PREFIX_BP')
+                if v is not None and (where, v) not in pvals:
+                    pvals.append((where, v))
     if not pvals:
         rep.violation('R15a', NP + 'expr::prefix_binding_power', 'prefix', '-', 'anchor-missing: prefix binding power not found')
     for where, v in pvals:
